@@ -1089,6 +1089,36 @@ Proof.
     rewrite dkeys_map_vals in Hk. apply B2; auto.
 Qed.
 
+(* ------------------------------------------------------------------ reordering the node list *)
+Lemma nodupb_NoDup l : nodupb l = true -> NoDup l.
+Proof.
+  induction l as [|a r IH]; cbn; [constructor|]. intros H. apply andb_true_iff in H. destruct H as [H1 H2].
+  constructor; auto. apply negb_true_iff, memn_nIn in H1. auto.
+Qed.
+Lemma WF_reorder s l : WF s -> NoDup l -> (forall x, In x l <-> In x (g_nodes (s_g s))) ->
+  WF (mkSt (s_nh s) (s_ah s) (s_nn s) (s_na s) (g_set_nodes (s_g s) l)).
+Proof.
+  intros [A S T I1 I2 I3 B1 B2] Nd Hl. constructor; cbn; auto.
+  - destruct A as (a1 & a2 & a3 & a4). split; [auto|]. split; [auto|]. split; [|auto]. intros o Ho. apply a3, Hl; auto.
+  - destruct S as (S1 & S2 & S3). split; [|split].
+    + intros o c Ho Hc. apply Hl. apply Hl in Ho. eauto.
+    + intros o p Ho Hp. apply Hl. apply Hl in Ho. eauto.
+    + intros p c Hp Hc. apply Hl in Hp. apply Hl in Hc. apply (S3 p c Hp Hc).
+  - destruct T as (T1 & T2 & T3 & T4 & T5 & T6). split; [|split; [|split; [|split; [|split]]]].
+    + intros o a Ho. apply Hl in Ho. apply (T1 o a Ho).
+    + intros a o Ha Ho. apply Hl. apply (T2 a o Ha Ho).
+    + intros a o Ha Ho. apply Hl. apply (T3 a o Ha Ho).
+    + intros a o Ha Ho. apply Hl in Ho. apply (T4 a o Ha Ho).
+    + intros o Ho. apply Hl in Ho. apply (T5 o Ho).
+    + exact T6.
+  - destruct I1 as (X & Y & Z). split; [|split]; [| |exact Z].
+    + intros k o H. destruct (X k o H) as [P Q]. split; [apply Hl; auto | exact Q].
+    + intros o Ho. apply Hl in Ho. apply (Y o Ho).
+  - destruct I2 as (X & Y & Z). split; [|split]; [| |exact Z].
+    + intros k o H. destruct (X k o H) as [P Q]. split; [apply Hl; auto | exact Q].
+    + intros o Ho. apply Hl in Ho. apply (Y o Ho).
+Qed.
+
 (* ------------------------------------------------------------------ every step preserves WF *)
 Lemma WF_init : WF init.
 Proof.
@@ -1164,6 +1194,11 @@ Proof.
   - (* OSetTags *) cbn. apply WF_with_nh; auto; intros n; cbn; auto 6.
   - (* OSetExtras *) cbn. apply WF_with_nh; auto; intros n; cbn; auto 6.
   - (* OCopy *) cbn. apply WF_deepcopy; auto.
+  - (* OReorder *) cbn.
+    apply andb_true_iff in G. destruct G as [G G3]. apply andb_true_iff in G. destruct G as [G1 G2].
+    apply WF_reorder; auto; [apply nodupb_NoDup; auto|]. intros x. split.
+    + intros Hx. rewrite forallb_forall in G2. apply in_graph_In. auto.
+    + intros Hx. rewrite forallb_forall in G3. apply memn_In. auto.
   - cbn; auto.
   - cbn; auto.
   - cbn; auto.
